@@ -36,7 +36,10 @@ func checkC15(c *Ctx) {
 		c15Handler(c, p, m)
 		handleDecision(c, p, m)
 		c15Bridge(c, p, m)
+		c08Stores(c, p, m)
 	}
+	r.Rule("R08.1", "(shared with C08) a record carries all ITS attributes: nothing on the adapter's and the printer's path writes memory that outlives the call (a per-handler scratch list reused between records lets two overlapping Handle calls exchange their attributes)")
+	r.Rule("R08.2", "(shared with C08) lists appended to or reordered in place belong to this call")
 	r.Rule("R12.5", "(shared with C12) no foreign level becomes terminating")
 	c.Floor["R15.1"] = 5
 	c.Floor["R15.3"] = 7
@@ -686,6 +689,28 @@ func c15Bridge(c *Ctx, p *Prog, m *Model) {
 			}
 		}
 		r.Check(ok && ok2, "R15.5", "NewLogLogger", p.FuncPos(nl), "the bridge carries the logger and severity given", "NewLogLogger does not store the logger and severity given into the bridge")
+		// what the std logger writes to is the bridge itself: log.Logger hands each message over in ONE Write, and a
+		// writer put in between (line splitting, buffering) turns one message into several records or none
+		for _, cs := range callsIn(nl) {
+			cal := calleeOf(cs)
+			if cal == nil || cal.String() != "log.New" {
+				continue
+			}
+			direct := false
+			for _, sv := range sources(cs.Common().Args[0]) {
+				t := sv.Type()
+				if mi, isMI := sv.(*ssa.MakeInterface); isMI {
+					t = mi.X.Type()
+				}
+				if nt := namedOf(t); nt != nil && nm(nt.Obj()) == "handlerWriter" {
+					direct = true
+					continue
+				}
+				direct = false
+				break
+			}
+			r.Check(direct, "R15.5", "NewLogLogger:direct", p.Pos(instrPos(cs)), "the std logger writes to the bridge itself", "the writer given to log.New is not the bridge itself but something put in front of it: the one-Write-per-message contract of log.Logger no longer reaches the bridge (a multi-line message becomes several records)")
+		}
 	}
 	// writeInternal
 	wr := p.Method(p.Slog, "Entry", "writeInternal")
